@@ -1,7 +1,7 @@
 """Subprocess helper for C19: build converters in the given history, print the battery results of selected ones.
 
 usage: c19_probe.py '<json spec>'
-spec = {"history": ["fresh", "nodetail", "forbid", "custom", "fresh+hook", ...], "report": [indices], "use_all": bool,
+spec = {"history": ["fresh", "nodetail", "forbid", "custom", "fresh+hook", "lenient", ...], "report": [indices], "use_all": bool,
         "preempt": {"point": k} (optional: two threads, thread A suspended at its k-th line event inside lsprotocol)}
 """
 import json
@@ -38,6 +38,14 @@ def make(kind):
         c.register_unstructure_hook(T.Position, lambda p: f"{p.line}:{p.character}")
         c.register_structure_hook(T.Position, lambda v, _: T.Position(line=int(str(v).split(":")[0]), character=int(str(v).split(":")[1])) if isinstance(v, str) else T.Position(**v))
         return c
+    if kind == "lenient":
+        # a user converter that is deliberately lenient about a few enumerations (its own business): nobody else's converter may inherit that
+        import lsprotocol.types as T
+
+        c = cattrs.Converter()
+        for e in (T.DiagnosticSeverity, T.MarkupKind, T.FileChangeType, T.SymbolKind):
+            c.register_structure_hook(e, lambda v, _: v)
+        return converters.get_converter(c)
     raise ValueError(kind)
 
 
@@ -60,6 +68,14 @@ def battery(conv):
         (T.WorkspaceEdit, {"documentChanges": [{"kind": "create", "uri": "file:///a"}, {"textDocument": {"uri": "file:///b", "version": None}, "edits": [{"range": {"start": {"line": 0, "character": 0}, "end": {"line": 0, "character": 0}}, "newText": "t"}]}]}),
         (T.DidChangeTextDocumentParams, {"textDocument": {"uri": "u", "version": 1}}),
         (T.Hover, {"contents": ["s", {"language": "py", "value": "v"}]}),
+        # unknown properties at nested nodes, values outside closed enumerations
+        (T.Range, {"start": {"line": 1, "character": 2, "zzz": 0}, "end": {"line": 3, "character": 4}, "yyy": None}),
+        (T.TextEdit, {"range": {"start": {"line": 0, "character": 0}, "end": {"line": 0, "character": 1}}, "newText": "t", "new_text": "u"}),
+        (T.Diagnostic, {"range": {"start": {"line": 0, "character": 0}, "end": {"line": 0, "character": 1}}, "message": "m", "severity": 99}),
+        (T.Diagnostic, {"range": {"start": {"line": 0, "character": 0}, "end": {"line": 0, "character": 1}}, "message": "m", "severity": 2, "extra": {"a": 1}}),
+        (T.MarkupContent, {"kind": "html", "value": "v"}),
+        (T.FileEvent, {"uri": "file:///a", "type": 4}),
+        (T.DocumentSymbol, {"name": "n", "kind": 99, "range": {"start": {"line": 0, "character": 0}, "end": {"line": 0, "character": 1}}, "selectionRange": {"start": {"line": 0, "character": 0}, "end": {"line": 0, "character": 1}}}),
     ]
     for cls, j in cases:
         try:
